@@ -105,7 +105,7 @@ def _kind(md):
 
 
 def _roles(detail):
-    return detail["ew"].split(":"), detail["gw"].split(":")
+    return detail["ew"].split(":", 3), detail["gw"].split(":", 3)
 
 
 def m_xory1d_direction(case, clause, detail, finding):
@@ -153,9 +153,11 @@ def m_domain_whole_dofmap(case, clause, detail, finding):
 
 
 def m_cma_assembly_ncell3d(case, clause, detail, finding):
-    '''CMA assembly: the guide passes ncell_3d once (rule 4); both generators
-    pass <op>_ncell_3d before every LMA operator as in general-purpose
-    kernels.'''
+    '''CMA assembly: the guide passes ncell_3d once as the fourth argument
+    (rule 4) and an LMA operator as its array only; both generators pass
+    <op>_ncell_3d before every LMA operator as in general-purpose kernels.
+    Every position from the fourth up to the last LMA operator may be
+    shifted by this, nothing else.'''
     if clause not in ("StubFollowsDoc", "CallFollowsDoc"):
         return False
     if _kind(case["md"]) != "assembly":
@@ -163,9 +165,25 @@ def m_cma_assembly_ncell3d(case, clause, detail, finding):
     nlma = sum(1 for a in case["md"]["args"] if a["t"] == "op")
     if detail["f"] == "count":
         return int(detail["got"]) - int(detail["exp"]) == nlma - 1
+    got = case["stub" if clause == "StubFollowsDoc" else "call"]
+    last_op = max(i for i, r in enumerate(got, 1) if r.startswith("op:"))
+    return 4 <= detail["pos"] <= last_op and detail["f"] in ("w", "a")
+
+
+def m_cma_apply_indirection(case, clause, detail, finding):
+    '''CMA application: the guide passes the indirection maps last (rules
+    5, 6: to-space, then from-space); both generators pass each one right
+    after the dofmap of its function space.'''
+    if clause not in ("StubFollowsDoc", "CallFollowsDoc"):
+        return False
+    if _kind(case["md"]) != "apply" or detail["f"] not in ("w", "fs"):
+        return False
     ew, gw = _roles(detail)
-    return detail["pos"] >= 4 and "op_ncell_3d" in (ew[0], gw[0]) or \
-        (detail["pos"] == 4 and ew[0] == "ncell_3d")
+    maps = {"cma_indirection_map", "ndf", "undf", "map"}
+    got = case["stub" if clause == "StubFollowsDoc" else "call"]
+    first = min(i for i, r in enumerate(got, 1) if r.startswith("ndf:"))
+    return (ew[0] in maps and gw[0] in maps and detail["pos"] > first
+            and "cma_indirection_map" in [r.split(":")[0] for r in got])
 
 
 def m_eval_before_quadrature(case, clause, detail, finding):
@@ -221,6 +239,7 @@ MATCHERS = {
     "c21_funcs_basis_before_diff": m_funcs_order,
     "c21_domain_whole_dofmap": m_domain_whole_dofmap,
     "c21_cma_assembly_ncell3d": m_cma_assembly_ncell3d,
+    "c21_cma_apply_indirection_map": m_cma_apply_indirection,
     "c21_evaluator_before_quadrature": m_eval_before_quadrature,
     "c21_stub_stencil_size_rank": m_stub_stencil_size_rank,
     "c21_nfaces_re_h_undeclared": m_nfaces_re_h_undeclared,
